@@ -20,8 +20,9 @@
 (*   Gate              out = incoming if trigger > 0 else 0                *)
 (*   FixedPartition    fraction 1/2:   o1 = in/2, o2 = in/2                *)
 (*   RunoffCoefficient coeff 2:        out = 2*in                          *)
-(*   Muskingum         K=1, X=0, dt=2 (a1 = a2 = 1/2, a3 = 0), no lateral: *)
-(*                     out(t) = in(t)/2 + prev/2;  states S, prevIn, prevOut*)
+(*   Muskingum         K=1, X=0, dt=2 (a1 = a2 = 1/2, a3 = 0); tot = inflow *)
+(*                     + lateral: out(t) = tot(t)/2 + tot(t-1)/2;          *)
+(*                     states S, previous total inflow, previous outflow   *)
 (*                                                                         *)
 (* The graph is built by staged actions (ChooseModels, ChooseCounts,       *)
 (* AddLink ...), so TLC enumerates all graphs within the bounds; Evaluate  *)
@@ -40,8 +41,8 @@ NI(k) == CASE k = "Input" -> 1 [] k = "Sum" -> 2 [] k = "Gate" -> 2 [] k = "Fixe
            [] k = "RunoffCoefficient" -> 1 [] k = "Muskingum" -> 2
 NO(k) == IF k = "FixedPartition" THEN 2 ELSE 1
 NS(k) == IF k = "Muskingum" THEN 3 ELSE 0
-\* input variables that links may target (Muskingum's lateral stays zero)
-LinkableInputs(k) == IF k = "Muskingum" THEN {0} ELSE 0..(NI(k) - 1)
+\* input variables that links may target
+LinkableInputs(k) == 0..(NI(k) - 1)
 Params(k) == CASE k = "FixedPartition" -> <<1>>            \* fraction numerator over 2
                [] k = "RunoffCoefficient" -> <<2>>
                [] k = "Muskingum" -> <<1, 0, 2>>
@@ -112,8 +113,8 @@ Kernel(k, in, st) ==   \* in: [j -> [t -> value]] (1-based), st: sequence of sta
       [] k = "FixedPartition" -> [out |-> << [t \in 1..T |-> Half(in[1][t])], [t \in 1..T |-> Half(in[1][t])] >>, st |-> st]
       [] k = "RunoffCoefficient" -> [out |-> << [t \in 1..T |-> 2 * in[1][t]] >>, st |-> st]
       [] k = "Muskingum" ->
-            LET o == [t \in 1..T |-> Half(in[1][t] + in[2][t]) + Half(IF t = 1 THEN st[2] ELSE in[1][t - 1])]
-            IN [out |-> <<o>>, st |-> <<st[1], in[1][T], o[T]>>]
+            LET o == [t \in 1..T |-> Half(in[1][t] + in[2][t]) + Half(IF t = 1 THEN st[2] ELSE in[1][t - 1] + in[2][t - 1])]
+            IN [out |-> <<o>>, st |-> <<st[1], in[1][T] + in[2][T], o[T]>>]
 
 \* inputs: [m -> [row -> [j -> [t -> v]]]] (rows 0-based via +1)
 StoredInputs == [m \in 1..Len(models) |-> [r \in 1..Total(m) |-> [j \in 1..NI(models[m].kind) |-> [t \in 1..T |-> Stored(m, r - 1, j - 1, t - 1)]]]]
